@@ -13,6 +13,7 @@ def build(eng, tier):
     ir_targets.build(eng, tier, "C01")
     # an initializer stays stored under its current name whether a rename succeeds or raises: every rejection (and a failure
     # of the backing tensor's own name setter) precedes the first store (effect targets shared with C06)
-    from . import C06
+    from . import C06, usedef_targets
+    usedef_targets.build(eng, "C01")
     C06.add_rename_target(eng)
     C06.add_value_name_target(eng)
